@@ -375,6 +375,74 @@ theorem project_kd_v3_threadmap (env : Env) (ctx : List (String × CVal))
   rw [onSub_greedyEntries _ _ (hf b), RM.pure_bind']
   exact project_pure _ _ _ (toThreadmapV3_struct _)
 
+/-! ### kd_v3_additional_data -/
+
+def blockToCVal (b : Bytes × Bytes) : CVal := .struct [("tag", .bytes b.1), ("data", .bytes b.2)]
+
+theorem onSub_greedyBytes (b : Bytes) : onSub b (mapRM CVal.bytes greedyBytesRM) = pure (CVal.bytes b) := rfl
+
+theorem parse_prefixedBytes (env : Env) (ctx : List (String × CVal)) :
+    (Con.prefixed64 .greedyBytes).parse env ctx = mapRM CVal.bytes prefixedBytes := by
+  simp only [Con.parse, onSub_greedyBytes]
+  unfold prefixedBytes mapRM
+  simp only [RM.bind_assoc']
+
+theorem aligned_mapRM {α β : Type} (f : α → β) (n : Nat) (m : RM α) :
+    aligned n (mapRM f m) = mapRM f (aligned n m) := by
+  unfold aligned mapRM
+  simp only [RM.bind_assoc', RM.pure_bind']
+
+theorem select2_mapRM {α β : Type} (f : α → β) (m1 m2 : RM α) :
+    select2 (mapRM f m1) (mapRM f m2) = mapRM f (select2 m1 m2) := by
+  funext r
+  have h1 : ∀ r, mapRM f m1 r = RM.bind' m1 (fun a => RM.pure' (f a)) r := fun _ => rfl
+  have h2 : ∀ r, mapRM f m2 r = RM.bind' m2 (fun a => RM.pure' (f a)) r := fun _ => rfl
+  show _ = RM.bind' (select2 m1 m2) (fun a => RM.pure' (f a)) r
+  unfold select2
+  simp only [h1, h2]
+  unfold RM.bind' RM.pure'
+  dsimp only
+  cases m1 r with
+  | mk x r1 =>
+    cases x with
+    | ok a => rfl
+    | error e =>
+      cases e <;> dsimp only <;>
+        (cases m2 (r1.seekTo r.pos) with
+         | mk y r2 =>
+           cases y with
+           | ok a => rfl
+           | error e2 => cases e2 <;> rfl)
+
+theorem parse_blockStruct (env : Env) (ctx : List (String × CVal)) :
+    Expected.blockStruct.parse env ctx = mapRM blockToCVal blockElem := by
+  simp only [Expected.blockStruct, Con.parse, Fields.parse, onSub_greedyBytes, List.nil_append, List.cons_append]
+  have hp : (int64ul >>= fun n => readExact n >>= fun b => (pure (CVal.bytes b) : RM CVal))
+      = mapRM CVal.bytes prefixedBytes := by
+    unfold prefixedBytes mapRM
+    simp only [RM.bind_assoc']
+  simp only [hp, aligned_mapRM, select2_mapRM, mapRM_bind]
+  unfold blockElem mapRM
+  simp only [RM.bind_assoc', RM.pure_bind']
+  rfl
+
+theorem toBlockList_map : ∀ l : List (Bytes × Bytes), CVal.toBlockList (l.map blockToCVal) = some l
+  | [] => rfl
+  | b :: l => by
+    have hb : (blockToCVal b).toBlock = some b := by cases b; rfl
+    simp only [List.map_cons, CVal.toBlockList, hb, toBlockList_map l]
+
+theorem project_kd_v3_additional_data (env : Env) (ctx : List (String × CVal)) (r : Reader) :
+    project CVal.toBlocks (Expected.kd_v3_additional_data.parse env ctx) r = greedyRange blockElem (env.fuel r) r := by
+  have hb : Expected.kd_v3_additional_data = .greedyRange Expected.blockStruct := rfl
+  rw [hb]
+  simp only [Con.parse, parse_blockStruct, greedyRange_mapRM, mapRM_bind, project_bind]
+  have hp : ∀ l : List (Bytes × Bytes),
+      project CVal.toBlocks (pure (CVal.list (l.map blockToCVal))) = (pure l : RM _) :=
+    fun l => project_pure _ _ _ (toBlockList_map l)
+  simp only [hp, RM.bind_pure']
+  rfl
+
 /-! ### what the module binds the names to -/
 
 theorem decl_kd_threadmap : Expected.module.decl "kd_threadmap" = Expected.kd_threadmap := by decide
@@ -384,5 +452,8 @@ theorem decl_kd_header_v2 : Expected.module.decl "kd_header_v2" = kd_header_v2R 
 theorem decl_kd_header_v3 : Expected.module.decl "kd_header_v3" = Expected.kd_header_v3 := by decide
 
 theorem decl_kd_v3_threadmap : Expected.module.decl "kd_v3_threadmap" = kd_v3_threadmapR := by decide
+
+theorem decl_kd_v3_additional_data :
+    Expected.module.decl "kd_v3_additional_data" = Expected.kd_v3_additional_data := by decide
 
 end KdVerif.PyIRCn
